@@ -585,13 +585,13 @@ Hypothesis Hgr_cc : forall c, compact_af (c_af c) (length (c_ids c)) ->
 
 (* ---------------------------------------------------------------- (G1) GR *)
 Theorem gr_se_whole : gr F (gr_se g) /\ NoDup (gr_se g) /\ incl (gr_se g) (args F).
-Proof.
+Proof using Hgr.
   unfold gr_se. destruct Hgr as [H1 H2]. split; [exact H1|split; [exact H2|]].
   exact (ext_incl GR F _ H1).
 Qed.
 
 Lemma gr_meets_cred : forall al, meets al (grounded g) = true <-> cred GR F al.
-Proof.
+Proof using Hwf Hgr.
   intros al. destruct Hgr as [H1 _]. rewrite meets_spec. split.
   - intros [a [Ha Hg]]. exists (grounded g). split; [exact H1|now exists a].
   - intros [S [HS [a [Ha HaS]]]]. exists a. split; [exact Ha|].
@@ -599,7 +599,7 @@ Proof.
 Qed.
 
 Lemma gr_meets_skep : forall al, meets al (grounded g) = true <-> skep GR F al.
-Proof.
+Proof using Hwf Hgr.
   intros al. destruct Hgr as [H1 _]. rewrite meets_spec. split.
   - intros [a [Ha Hg]] S HS. exists a. split; [exact Ha|].
     apply (gr_unique2 F (grounded g) S Hwf H1 HS a). exact Hg.
@@ -612,7 +612,7 @@ Theorem gr_dc_whole : forall al b cert, gr_dc g al = (b, cert) ->
   | Some e => b = true /\ gr F e /\ NoDup e /\ incl e (args F) /\ exists a, In a al /\ In a e
   | None => b = false
   end.
-Proof.
+Proof using Hwf Hgr.
   intros al b cert H. unfold gr_dc in H. cbv zeta in H.
   destruct (meets al (grounded g)) eqn:Hm; injection H as <- <-.
   - split; [split; [intros _; now apply gr_meets_cred|reflexivity]|].
@@ -627,7 +627,7 @@ Theorem gr_ds_whole : forall al b cert, gr_ds g al = (b, cert) ->
   | Some e => b = false /\ gr F e /\ NoDup e /\ incl e (args F) /\ forall a, In a al -> ~ In a e
   | None => b = true
   end.
-Proof.
+Proof using Hwf Hgr.
   intros al b cert H. unfold gr_ds in H. cbv zeta in H.
   destruct (meets al (grounded g)) eqn:Hm; injection H as <- <-.
   - split; [|reflexivity]. split; [intros _; now apply gr_meets_skep|reflexivity].
@@ -643,7 +643,7 @@ Theorem st_se_whole :
               | Some L => st F L /\ NoDup L /\ incl L (args F)
               | None => forall S, ~ st F S
               end).
-Proof.
+Proof using Hthr Hvalid Hcc.
   destruct Hcc as [ccs [Hall Hok]]. apply wpT_on_done. intros s.
   unfold st_se, ccs_m. rewrite Hall, wp_bind, wp_ret.
   eapply wp_mono;
@@ -663,7 +663,7 @@ Theorem st_dc_whole : forall al,
               | (false, None) => ~ cred ST F al
               | _ => False
               end).
-Proof.
+Proof using Hthr Hvalid Hcc.
   intros al. destruct Hcc as [ccs [Hall Hok]]. apply wpT_on_done. intros s.
   unfold st_dc, st_accept, ccs_m. rewrite Hall, wp_bind, wp_ret. cbn [negb].
   eapply wp_mono;
@@ -687,7 +687,7 @@ Theorem st_ds_whole : forall al,
               | (true, None) => skep ST F al
               | _ => False
               end).
-Proof.
+Proof using Hthr Hvalid Hcc.
   intros al. destruct Hcc as [ccs [Hall Hok]]. apply wpT_on_done. intros s.
   unfold st_ds, st_accept, ccs_m. rewrite Hall, wp_bind, wp_ret. cbn [negb].
   eapply wp_mono;
@@ -706,7 +706,7 @@ Qed.
 Theorem co_dc_whole : forall e al,
   enc_base e = BCo -> al <> [] -> (forall a, In a al -> In a (args F)) ->
   on_done (co_dc oracle thr e g al) (fun b => b = true <-> cred CO F al).
-Proof.
+Proof using Hthr Hvalid Hmerged.
   intros e al He Hne Hal. destruct (Hmerged al Hne Hal) as [s0 [c [rest [Hm [Hin [Hrem Hok]]]]]].
   destruct (locals_some c al Hin) as [la [Hl [Hmap Hlt]]].
   pose proof (comp_compact F (c :: rest) Hok c (or_introl eq_refl)) as HF.
@@ -721,9 +721,39 @@ Proof.
   destruct r as [m|].
   - split; [intros _|reflexivity]. destruct Hr as [H1 H2]. apply meets_spec in H2.
     destruct H2 as [a [Ha HaS]]. exists (assignment_to_extension (length (c_ids c)) e m).
-    split; [exact H1|now exists a].
+    split; [exact H1|exists a; split; assumption].
   - split; [discriminate|]. intros [S [HS [a [Ha HaS]]]]. specialize (Hr S HS).
     pose proof (proj1 (meets_false la S) Hr a Ha). contradiction.
+Qed.
+
+(* the shape of a completed run of the certificate variant, before any gluing argument *)
+Lemma co_dc_cert_shape : forall e al s0 c rest la,
+  enc_base e = BCo ->
+  merged_cc_of g (cc_new g) al = Some (s0, c) -> remaining_ccs g s0 = Some rest ->
+  locals c al = Some la -> comp_ok c -> (forall i, In i la -> i < length (c_ids c)) ->
+  on_done (co_dc_cert oracle thr e g al)
+    (fun r => match r with
+              | (true, Some L) =>
+                  exists X, L = glue (c :: rest)
+                                  (X :: map (fun oc => grounded (view_of_af (c_af oc))) rest) /\
+                            co (c_af c) X /\ NoDup X /\ meets la X = true
+              | (false, None) => forall S, co (c_af c) S -> meets la S = false
+              | _ => False
+              end).
+Proof using Hthr Hvalid.
+  intros e al s0 c rest la He Hm Hrem Hl HF Hlt.
+  apply wpT_on_done. intros s. unfold co_dc_cert, merged_m, locals_m, remaining_m.
+  rewrite Hm, wp_bind, wp_ret. cbv zeta. cbn [snd fst]. rewrite wp_bind, wp_new_solver, Hl, Hrem.
+  rewrite wp_bind_assoc, wp_bind.
+  eapply wp_mono;
+    [|apply (cred_query_spec oracle thr Hthr Hvalid e (c_af c) (length (c_ids c)) HF la Hlt false
+               (st_new s)); [apply cls_new|apply sb_new]].
+  intros r s'' Hr. rewrite He in Hr. cbn [basep] in Hr. destruct r as [m|].
+  - rewrite wp_bind, !wp_ret. rewrite (proj1 HF), seq_length.
+    rewrite <- (glue_map (fun oc => grounded (view_of_af (c_af oc))) rest).
+    exists (assignment_to_extension (length (c_ids c)) e m). destruct Hr as [H1 H2].
+    split; [reflexivity|]. split; [exact H1|]. split; [apply a2e_NoDup|exact H2].
+  - rewrite wp_ret. exact Hr.
 Qed.
 
 Theorem co_dc_cert_whole : forall e al,
@@ -735,39 +765,59 @@ Theorem co_dc_cert_whole : forall e al,
               | (false, None) => ~ cred CO F al
               | _ => False
               end).
-Proof.
+Proof using Hthr Hvalid Hmerged Hgr_cc.
   intros e al He Hne Hal. destruct (Hmerged al Hne Hal) as [s0 [c [rest [Hm [Hin [Hrem Hok]]]]]].
   destruct (locals_some c al Hin) as [la [Hl [Hmap Hlt]]].
   pose proof (comp_compact F (c :: rest) Hok c (or_introl eq_refl)) as HF.
-  apply wpT_on_done. intros s. unfold co_dc_cert, merged_m, locals_m, remaining_m.
-  rewrite Hm, wp_bind, wp_ret. cbv zeta. cbn [snd fst]. rewrite wp_bind, wp_new_solver, Hl, Hrem.
-  rewrite wp_bind_assoc, wp_bind.
-  eapply wp_mono;
-    [|apply (cred_query_spec oracle thr Hthr Hvalid e (c_af c) (length (c_ids c)) HF la Hlt false
-               (st_new s)); [apply cls_new|apply sb_new]].
-  intros r s'' Hr. rewrite He in Hr. cbn [basep] in Hr. destruct r as [m|].
-  - rewrite wp_bind, !wp_ret. rewrite (proj1 HF), seq_length.
-    rewrite <- (glue_map (fun oc => grounded (view_of_af (c_af oc))) rest).
-    set (X := assignment_to_extension (length (c_ids c)) e m) in *.
-    change (lift c X ++ glue rest (map (fun oc => grounded (view_of_af (c_af oc))) rest))
-      with (glue (c :: rest) (X :: map (fun oc => grounded (view_of_af (c_af oc))) rest)).
+  intros s. pose proof (co_dc_cert_shape e al s0 c rest la He Hm Hrem Hl HF Hlt s) as H.
+  destruct (co_dc_cert oracle thr e g al s) as [[[|] [L|]] s'| | |]; try exact I; try exact H.
+  - destruct H as [X [-> [H1 [_ H2]]]].
     set (L := glue (c :: rest) (X :: map (fun oc => grounded (view_of_af (c_af oc))) rest)).
-    destruct Hr as [H1 H2].
     assert (HL : co F L).
     { apply (glue_ext F (c :: rest) Hok CO). constructor; [exact H1|].
       apply Forall2_map_same. intros oc Hoc.
-      assert (Hoc' : In oc (c :: rest)) by now right.
+      assert (Hoc' : In oc (c :: rest)) by (right; exact Hoc).
       apply (gr_co (c_af oc)); [exact (comp_af_wf F (c :: rest) Hok oc Hoc')|].
       apply Hgr_cc. exact (comp_compact F (c :: rest) Hok oc Hoc'). }
     assert (Hmeet : exists a, In a al /\ In a L).
     { apply meets_spec in H2. destruct H2 as [i [Hi HiX]]. exists (cc_global c i). split.
-      - rewrite <- Hmap. now apply in_map.
-      - unfold L. cbn [glue]. apply in_or_app. left. apply in_lift. now exists i. }
+      - rewrite <- Hmap. apply in_map. exact Hi.
+      - unfold L. cbn [glue]. apply in_or_app. left. apply in_lift. exists i. split; [exact HiX|reflexivity]. }
     split; [exact HL|]. split; [exact (co_incl F L HL)|]. split; [exact Hmeet|].
     exists L. split; [exact HL|exact Hmeet].
-  - rewrite wp_ret. rewrite <- Hmap, (co_merged_local F c rest la Hok Hlt).
-    intros [S [HS [a [Ha HaS]]]]. specialize (Hr S HS).
-    pose proof (proj1 (meets_false la S) Hr a Ha). contradiction.
+  - rewrite <- Hmap, (co_merged_local F c rest la Hok Hlt).
+    intros [S [HS [a [Ha HaS]]]]. specialize (H S HS).
+    pose proof (proj1 (meets_false la S) H a Ha). contradiction.
+Qed.
+
+(* ---------------------------------------------------------------- (G5) no duplicates *)
+(* every list returned by the GR and ST entry points is duplicate-free and made of arguments of F:
+   this is part of the theorems above.  For the CO certificate (model of the merged component
+   followed by the grounded extensions of the other components) it needs that [grounded] returns a
+   duplicate-free list on a component: *)
+Hypothesis Hgr_cc_nd : forall c, compact_af (c_af c) (length (c_ids c)) ->
+  NoDup (grounded (view_of_af (c_af c))).
+
+Theorem co_dc_cert_nodup : forall e al,
+  enc_base e = BCo -> al <> [] -> (forall a, In a al -> In a (args F)) ->
+  on_done (co_dc_cert oracle thr e g al)
+    (fun r => match snd r with Some L => NoDup L /\ incl L (args F) | None => True end).
+Proof using Hthr Hvalid Hmerged Hgr_cc Hgr_cc_nd.
+  intros e al He Hne Hal. destruct (Hmerged al Hne Hal) as [s0 [c [rest [Hm [Hin [Hrem Hok]]]]]].
+  destruct (locals_some c al Hin) as [la [Hl [Hmap Hlt]]].
+  pose proof (comp_compact F (c :: rest) Hok c (or_introl eq_refl)) as HF.
+  intros s. pose proof (co_dc_cert_shape e al s0 c rest la He Hm Hrem Hl HF Hlt s) as H.
+  destruct (co_dc_cert oracle thr e g al s) as [[[|] [L|]] s'| | |]; cbn [snd]; try exact I;
+    [|destruct H].
+  destruct H as [X [-> [H1 [H2 _]]]].
+  assert (H : Forall2 (fun c S => ext CO (c_af c) S /\ NoDup S) (c :: rest)
+                (X :: map (fun oc => grounded (view_of_af (c_af oc))) rest)).
+  { constructor; [split; [exact H1|exact H2]|]. apply Forall2_map_same. intros oc Hoc.
+    assert (Hoc' : In oc (c :: rest)) by (right; exact Hoc).
+    pose proof (comp_compact F (c :: rest) Hok oc Hoc') as Hc. split.
+    - apply (gr_co (c_af oc)); [exact (comp_af_wf F (c :: rest) Hok oc Hoc')|]. apply Hgr_cc. exact Hc.
+    - apply Hgr_cc_nd. exact Hc. }
+  destruct (glue_ext_full F (c :: rest) Hok CO _ H) as [_ [H3 H4]]. split; assumption.
 Qed.
 
 End Whole.
